@@ -12,6 +12,7 @@ mod gen;
 mod oracle;
 mod render;
 mod rng;
+mod walk;
 
 use serde_json::{json, Value as J};
 use std::io::{BufRead, Write};
@@ -222,6 +223,26 @@ fn main() {
             }
             write_ndjson(&args[4], &items);
             println!("{} cases", items.len());
+        }
+        "parse" => {
+            // tsgv parse <in.ndjson> <out.ndjson>: parses each {id, text} WITHOUT the checker and walks the AST
+            exec::silence_panics();
+            let items = read_ndjson(&args[2]);
+            let mut out = Vec::new();
+            for it in items.iter() {
+                let text = it["text"].as_str().unwrap_or("").to_string();
+                let r = std::panic::catch_unwind(|| {
+                    let mut f = tree_sitter_graph::ast::File::new(oracle::language());
+                    #[allow(deprecated)]
+                    match f.parse(&text) {
+                        Ok(()) => json!({"status": "ok", "ast": walk::file(&f)}),
+                        Err(e) => json!({"status": "err", "msg": format!("{}", e)}),
+                    }
+                });
+                out.push(json!({"id": it["id"], "variant": it["variant"], "r": r.unwrap_or_else(|p| json!({"status": "panic", "msg": api::panic_msg(p)}))}));
+            }
+            write_ndjson(&args[3], &out);
+            println!("{} texts", out.len());
         }
         "retabs" => {
             // tsgv retabs <pool.json> <out.json>: tables of every (regex, subject) of a pool (oracle: regex crate)
